@@ -1510,7 +1510,7 @@ func c06Histories(tier string) []c06Scenario {
 		default:
 			fams = append(fams, c06Family{v, [][]string{nil}})
 		}
-		if isSeed || (tr.CpID == "" && tr.CacheID == "") || thorough {
+		if isSeed || (tr.CpID == "" && tr.CacheID == "") {
 			for _, b := range []string{"inpay", "atend", "incmd"} {
 				w := tr
 				w.Burst = b
